@@ -56,7 +56,8 @@ class Gen:
         self.files = {}
         self.stats = {"kinds": {}, "max_depth": 0, "nested_constructs": 0}
         self.imported_names = []
-        self.tail = []               # statements appended at the very end (late definitions that earlier code refers to)
+        self.tail = []
+        self.head = []           # statements placed in front of the generated body (after the segment definitions)               # statements appended at the very end (late definitions that earlier code refers to)
         self.nscoped = 0
 
     def fresh(self, p):
@@ -182,6 +183,24 @@ class Gen:
     def idiom(self, scope, depth):
         rng = self.rng
         self.budget -= 3
+        if self.f["macros"] and rng.random() < 0.3:
+            # a macro that is defined at the end of the file and whose body invokes other macros, followed by invocations of
+            # known macros: one reads a name that the next one defines as a label (and that also exists further out).
+            # The scope names `$macro_<n>` of the later invocations must not depend on the pass (5239ce9)
+            self.kind("idiom_forward_nested_macro")
+            i = self.fresh("fm")
+            x = "x" + i
+            nest = rng.randint(1, 3)
+            self.tail += [("raw", ".macro in%s() { %s }" % (i, rng.choice(["nop", "inx", ".byte 1"])))]
+            self.tail += [("raw", ".macro a%s() { %s }" % (i, "\n".join(["in%s()" % i] * nest + [rng.choice(["nop", "dex"])])))]
+            self.tail += [("raw", "%s: rts" % x)]
+            self.head += [("raw", ".macro b%s() { %s %s }" % (i, rng.choice(["lda", "jmp", "ldx"]), x)),
+                          ("raw", ".macro c%s() { %s: nop }" % (i, x))]
+            seq = [("raw", "a%s()" % i), ("raw", "b%s()" % i)]
+            seq += [("raw", "c%s()" % i)] * rng.randint(1, 3)
+            if rng.random() < 0.5:
+                seq.append(("raw", "b%s()" % i))
+            return ("seq", seq)
         if rng.random() < 0.55 or not self.f["imports"] or self.nscoped >= 2:
             # `.if` on a constant that is only defined at the end of the file (possibly through another late constant), whose
             # not-selected branch defines a constant / a label that other code observes (defined(..), a same-named outer label)
@@ -312,7 +331,12 @@ class Gen:
         # macro definitions and imports go to random places at the top level
         for extra in macro_defs + imports:
             body.insert(rng.randint(0, len(body)), extra)
-        top += body + self.tail
+        # `.segment "x"` without a block selects x for the rest of the file -- not for the beginning of the next pass (acfe737)
+        if self.segments and rng.random() < 0.45:
+            for _ in range(rng.choice([1, 1, 2])):
+                body.insert(rng.randint(max(1, len(body) // 2), len(body)), ("raw", '.segment "%s"' % rng.choice(self.segments)))
+                self.kind("segment_statement")
+        top += self.head + body + self.tail
         lines = []
         for s in top:
             self.render(s, 0, lines, self.root)
@@ -328,7 +352,13 @@ class Gen:
             if rng.random() < 0.6:
                 n = "x%d_%d" % (i, k)
                 names.append(n)
-                lines.append("%s: %s" % (n, rng.choice(["nop", "rts", ".byte 1, 2", "lda $%x" % rng.choice([0x10, 0xff, 0x100])])))
+                if names[:-1] and rng.random() < 0.45:
+                    # a label block that uses the file's own names: they must stay visible after the label was exported (92c8ba5)
+                    o = rng.choice(names[:-1])
+                    lines.append("%s: { %s %s\n  rts }" % (n, rng.choice(["lda", "ldx", "cmp"]), ("#<" + o) if o.startswith("k") else o))
+                    self.kind("import_block_uses_file_name")
+                else:
+                    lines.append("%s: %s" % (n, rng.choice(["nop", "rts", ".byte 1, 2", "lda $%x" % rng.choice([0x10, 0xff, 0x100])])))
             else:
                 n = "k%d_%d" % (i, k)
                 names.append(n)
